@@ -229,8 +229,34 @@ def check(ctx):
             for n in node_in(fcfg, r):
                 dom = fcfg.dominated(n, lambda m: m.ast is stmt_of(sorts[0]))
         ctx.ob("R2", f"{JSON}:JsonHistoryGC.files", f"`{short(r)}` returns the list after it was sorted", okret and dom, key="files|return-unsorted", where=loc(r))
-    # first tuple element of every appended tuple is a time stamp (ts / mtime)
-    del fdefs
+    # the sort key must not depend on file-system metadata that this very enumeration changes:
+    # the stale-lock rewrite replaces the file (new mtime/size); a stat of the same path taken
+    # afterwards in the same iteration and used as age key makes an ancient crashed session sort newest
+    loop_hdrs = [n for n in fcfg.nodes if n.kind == "for"]
+    writes = [n for n in fcfg.nodes if n.kind == "stmt" and any(call_name(c) in ("os.replace", "os.rename") or (call_name(c) == "open" and is_write_mode(open_mode(c) or "r")) for c in calls_in(n.ast))]
+    for c in appends:
+        tup = c.args[0] if c.args else None
+        key = tup.elts[0] if isinstance(tup, ast.Tuple) and tup.elts else tup
+        if key is None:
+            continue
+        stats = []
+        for x in ast.walk(key):
+            if isinstance(x, ast.Name):
+                for d in fdefs.get(x.id, []):
+                    if d.value is not None:
+                        stats += [(y, d.stmt) for y in ast.walk(d.value) if isinstance(y, ast.Call) and (call_name(y) or "") in ("os.path.getmtime", "os.path.getctime", "os.path.getatime", "os.stat", "os.path.getsize")]
+            if isinstance(x, ast.Call) and (call_name(x) or "") in ("os.path.getmtime", "os.path.getctime", "os.path.getatime", "os.stat"):
+                stats.append((x, stmt_of(x)))
+        bad = None
+        for call, st in stats:
+            sn = fcfg.nodes_of(st)
+            # reachable from a rewrite of the same path within one iteration (do not cross the loop header)
+            for w in writes:
+                seen = fcfg.reach([w], stop=lambda m: m in loop_hdrs)
+                if any(n_ in seen for n_ in sn):
+                    bad = (call, w)
+        ctx.ob("R2", f"{JSON}:JsonHistoryGC.files", f"the age key `{short(key, 50)}` of `{short(c, 40)}` does not read file-system metadata after this enumeration rewrote the file (stale-lock unlock)", bad is None, key="files|age-key-after-own-rewrite", where=loc(c), detail=f"`{short(bad[0])}` is evaluated after `{short(bad[1].ast, 50)}` in the same iteration" if bad else None)
+    ctx.extra["age_keys"] = [short(c.args[0].elts[0], 60) for c in appends if c.args and isinstance(c.args[0], ast.Tuple)]
 
     # ---- R2 selectors
     for s in SELECTORS:
